@@ -743,6 +743,15 @@ func (fx *FuncExec) evalSpecCall(env *SpecEnv, x *ast.CallExpr) Val {
 		fx.em.Assert(fmt.Sprintf("(forall ((j Int)) (! (= (select %s j) (ite (and (<= %s j) (< j (+ %s (s.len %s)))) %s (select %s j))) :pattern ((select %s j))))",
 			nw, at.S, at.S, s.S, el.S, w.S, nw))
 		return Val{Sort: w.Sort, S: nw}
+	case "forallstr":
+		// forallstr(k, P): P holds for every string k
+		v := x.Args[0].(*ast.Ident).Name
+		bn := fmt.Sprintf("%s!%d!", v, fx.em.n)
+		fx.em.n++
+		e2 := env.with(v, Val{T: types.Typ[types.String], Sort: SStr, S: bn})
+		e2.inQuant = true
+		body := fx.evalSpec(e2, x.Args[1])
+		return bv(fmt.Sprintf("(forall ((%s Str)) %s)", bn, body.S))
 	case "forallkey":
 		// forallkey(k, m, P): P holds for every key k present in map m
 		v := x.Args[0].(*ast.Ident).Name
